@@ -74,6 +74,15 @@ CLAIMS = {
    note="Trusted: TLC, Calendar.tla/Computus.tla JDNOf (model-checked against the chain), Fix.tla, float->Fix conversion.",
    technique="TLA+ Epoch ADT over the calendar chain; trace validation of sorted sweeps; TLC behaviours replayed on real objects",
    ref="5/C02"),
+ "C17": dict(
+   text="The least-squares solution is specified by its normal equations; TLC proves the Cramer formulas against them on every "
+        "small integer data set and replays all of those through the real class; for seeded 2-200-point data on a 1/4 grid TLC "
+        "recomputes sums and determinants exactly in fixed point and judges the returned coefficients cross-multiplied "
+        "(1e-6), degenerate data must raise ZeroDivisionError, correlation satisfies r^2 Dx Dy = Nxy^2 with the right sign "
+        "and range, general_fitting reproduces the quadratic/linear fit and leaves residuals orthogonal to free bases.",
+   note="Trusted: TLC, Fix.tla, math.sin/cos/exp used only to tabulate witness basis values for the free-basis orthogonality clause.",
+   technique="TLA+ normal-equation spec model-checked on small data sets + trace validation with exact fixed-point sums",
+   ref="5/C17"),
 }
 
 PENDING_REASON = "check not built yet in this round (specification module planned in DESIGN.md section 5); not claimed until its trace specification validates the unchanged tree"
